@@ -60,8 +60,10 @@ def _plain_map(d):
 
 def _encode_float(x):
     """fixed float encoder (i): exact small rational p/q, q <= 10^6, relative residual <= 1e-12"""
+    if x != x or x in (float("inf"), float("-inf")) or x <= 0:
+        raise ValueError("constant is not a positive finite number")   # -> "unprojectable": a defect, not a skip
     f = Fraction(x).limit_denominator(10 ** 6)
-    if f <= 0 or abs(float(f) - x) > 1e-12 * abs(x):
+    if abs(float(f) - x) > 1e-12 * abs(x):
         return None
     return f
 
